@@ -84,11 +84,19 @@ def recorded_amount_c05(col, gcode, paths, I):
     col.rule('C07.R1', 'C07: every synthesised command is one G/M code followed by distinct single-letter words', floor=4)
     col.rule('C07.R2', 'C07: every numeric word of the generated retract / recover commands is rendered by an exponent-free formatter', floor=8)
     rules_c07.path_rules(col, gcode, paths, I, own=False)
+    # a retraction is recognised as one only if the handler hands the words on as they are, and nothing else reaches the
+    # printer inside an episode (C01 path rules, exact tracking and word wiring included)
+    from .rules_c04 import c01_path_premise
+    c01_path_premise(col, gcode, paths, I)
 
 
 def run(ctx, tier):
     declare(ctx)
-    machine_rule(ctx, tier)
+    try:
+        machine_rule(ctx, tier)
+    except AnalysisError as ex:
+        # the other rules still run: a violation found there is reported, the unfinished machine fails the run only otherwise
+        ctx.deferred_errors.append(str(ex))
     from .rules_c04 import addcommands_rule
     addcommands_rule(ctx, 'C05.R5', 'C05.R5')
     from .handlers import run_path_rules
